@@ -131,10 +131,80 @@ let eval_l1 fs =
   let declared = z_of_hex (get fs "declared") in
   let late = get fs "late" = "1" in
   let bytes = bytes_of_hex (get fs "bytes") in
-  match fetch_close (decomp_of blobs) big_fuel off hwm bytes declared late with
+  (* the partition header of the response: only its high_watermark field reaches the Batch *)
+  let fld k d = (match List.assoc_opt k fs with Some v -> v | None -> d) in
+  let ab = fld "ab" "." in
+  let hdr = { fh_hwm = hwm; fh_lso = z_of_hex (fld "lso" (get fs "hwm")); fh_log_start = z_of_hex (fld "ls" "0");
+              fh_aborted = (if ab = "." then [] else
+                              List.map (fun a -> match String.split_on_char ':' a with
+                                                 | [p; f] -> (z_of_hex p, z_of_hex f)
+                                                 | _ -> failwith "bad aborted") (split_on '+' ab)) } in
+  let version = z_of_int (int_of_string (get fs "v")) in
+  match fetch_close_hdr (decomp_of blobs) big_fuel version off hdr bytes declared late with
   | None -> "panic"
   | Some ((((ms, e), final), cerr), closed) ->
     Printf.sprintf "%s;%s;%s;%s;%s" (str_msgs ms) (str_err e) (str_off final) (str_close cerr) (if closed then "1" else "0")
+
+(* ---- rd: Conn.Read / Batch.Read with short buffers ---- *)
+let str_rd connread = function
+  | RVal v -> "v" ^ hex_of_bytes v
+  | RShort -> "short"
+  | REnd EEOF when connread -> "v" ^ hex_of_bytes []      (* Conn.Read: (0, nil) at the end of a batch *)
+  | REnd e -> "end-" ^ str_err e
+let str_ccls = function
+  | CNil -> "nil" | CShortBuf -> "shortbuf"
+  | CErr e -> (match e with ERawEOF -> "fail" | EEOF -> "nil" | _ -> str_err e)
+
+let parse_calls s =
+  if s = "" then [] else
+  List.map (fun c -> match String.split_on_char ':' c with
+    | [o; bytes; bufs] -> (z_of_hex o, bytes_of_hex bytes, List.map z_of_hex (split_on '+' bufs))
+    | _ -> failwith "bad call") (split_on ',' s)
+
+let eval_rd fs =
+  let blobs = parse_blobs (get fs "blobs") in
+  let hwm = z_of_hex (get fs "hwm") in
+  let connread = get fs "mode" = "connread" in
+  let one (off, bytes, bufs) =
+    let b0 = new_batch off hwm bytes (z_of_int (List.length bytes)) false in
+    let ((rs, b), short) = batch_reads (decomp_of blobs) big_fuel b0 bufs in
+    let ((coff, cc), closed) = reads_close b short in
+    Printf.sprintf "%s;%s;%s;%s;%s" (String.concat "+" (List.map (str_rd connread) rs))
+      (if connread then "-" else str_off b.b_off) (str_off coff) (if connread then "-" else str_ccls cc)
+      (if closed then "1" else "0") in
+  String.concat "," (List.map one (parse_calls (get fs "calls")))
+
+(* the property on the REAL code's output: the values obtained by "Read; on io.ErrShortBuffer
+   grow the buffer and Read again" are the values of the stored records from the position, in
+   order; after io.ErrShortBuffer the offsets are still at the record that was not handed out *)
+let rd_prop fs (go : string) : string =
+  let log = parse_records (get fs "log") in
+  let pos = int_of_z (z_of_hex (get fs "pos")) in
+  let expected = List.filter (fun r -> int_of_z r.r_off >= pos) log in
+  let exp = ref expected and last = ref (pos - 1) and verdict = ref "ok" in
+  let bad v = if !verdict = "ok" then verdict := v in
+  (try
+    List.iter (fun batch ->
+      match String.split_on_char ';' batch with
+      | [rs; boff; coff; _cc; _closed] ->
+        List.iter (fun r ->
+          if r = "short" then begin
+            (match !exp with
+             | [] -> bad "VALUES"
+             | nxt :: _ ->
+               let chk o = if o <> "-" && o <> "start" && o <> "end" then
+                   (let o = int_of_z (z_of_hex o) in
+                    if not (!last < o && o <= int_of_z nxt.r_off) then bad "SHORT-OFFSET") in
+               chk boff; chk coff)
+          end else if String.length r >= 1 && r.[0] = 'v' then begin
+            let v = String.sub r 1 (String.length r - 1) in
+            (match !exp with
+             | nxt :: t when hex_of_bytes (opt_bytes nxt.r_val) = v -> exp := t; last := int_of_z nxt.r_off
+             | _ -> bad "VALUES")
+          end) (if rs = "" then [] else split_on '+' rs)
+      | _ -> bad "VALUES") (if go = "" then [] else split_on ',' go)
+  with _ -> bad "VALUES");
+  !verdict
 
 (* ---- enc ---- *)
 let eval_enc fs =
@@ -257,6 +327,7 @@ let eval (op : string) (ws : string list) : string =
   match op with
   | "l1" -> eval_l1 fs
   | "enc" -> eval_enc fs
+  | "rd" -> eval_rd fs
   | "e2e" | "e2ef1" -> eval_e2e fs
   | _ -> "BADOP"
 
@@ -274,7 +345,9 @@ let () =
     | id :: op :: rest ->
       (try
          let r = id ^ " " ^ eval op rest in
-         if op = "l1" && go <> "" then r ^ "\n" ^ id ^ ".prop " ^ l1_prop (fields rest) go (has_feat "physcut") else r
+         if op = "l1" && go <> "" then r ^ "\n" ^ id ^ ".prop " ^ l1_prop (fields rest) go (has_feat "physcut")
+         else if op = "rd" then r ^ "\n" ^ id ^ ".prop " ^ rd_prop (fields rest) go
+         else r
        with
        | Failure m -> id ^ " DRIVER-ERROR " ^ m
        | Not_found -> id ^ " DRIVER-ERROR not_found"
